@@ -152,6 +152,68 @@ func checkFindLookups(w *World, r *Report) {
 	if nApp == 0 {
 		r.Fatal("FindLookups: no append to the result slice found (rule rangefilter matches nothing)")
 	}
+	// resultpath: what is returned is the filtered and sorted list and nothing else
+	resT := fn.Signature.Results().At(0).Type()
+	for _, b := range fn.Blocks {
+		rt, ok := b.Instrs[len(b.Instrs)-1].(*ssa.Return)
+		if !ok || len(rt.Results) == 0 || isNilConst(rt.Results[0]) {
+			continue
+		}
+		key := r.MkKey("rangefilter", name, "returned list")
+		foreign := token.NoPos
+		built := false
+		sl := sliceThroughCells(fn, rt.Results[0])
+		for v := range sl {
+			if !types.Identical(v.Type(), resT) {
+				continue
+			}
+			switch x := v.(type) {
+			case *ssa.Call:
+				if bi, ok := x.Call.Value.(*ssa.Builtin); ok && bi.Name() == "append" {
+					built = true
+				} else {
+					foreign = x.Pos()
+				}
+			case *ssa.UnOp:
+				if _, isFA := x.X.(*ssa.FieldAddr); isFA {
+					foreign = x.Pos()
+				}
+			case *ssa.Parameter, *ssa.Extract, *ssa.Lookup, *ssa.Field:
+				foreign = x.Pos()
+			}
+		}
+		sorted := false
+		for _, b2 := range fn.Blocks {
+			if !b2.Dominates(b) {
+				continue
+			}
+			for _, in := range b2.Instrs {
+				c, ok := in.(*ssa.Call)
+				if !ok || c.Call.StaticCallee() == nil {
+					continue
+				}
+				cn := fnName(c.Call.StaticCallee())
+				if !(strings.HasPrefix(cn, "sort.") || strings.HasPrefix(cn, "slices.Sort")) || len(c.Call.Args) == 0 {
+					continue
+				}
+				for v := range sliceThroughCells(fn, c.Call.Args[0]) {
+					if types.Identical(v.Type(), resT) || types.Identical(v.Type(), types.NewPointer(resT)) {
+						if sl[v] {
+							sorted = true
+						}
+					}
+				}
+			}
+		}
+		switch {
+		case foreign.IsValid():
+			r.Fail("rangefilter", key, w.Pos(rt.Pos()), "the list returned here takes elements from "+w.Pos(foreign)+" that did not pass the range filter, the duplicate removal and the sort: out-of-range, repeated or unordered lookup indices reach the caller", nil)
+		case !built || !sorted:
+			r.Fail("rangefilter", key, w.Pos(rt.Pos()), "the list returned here is not the one built by the range-filtered appends and sorted before the return", nil)
+		default:
+			r.OK("rangefilter", key, w.Pos(rt.Pos()), "the filtered list, sorted before the return")
+		}
+	}
 }
 
 // reaches reports whether block a can reach block b along CFG edges (a != b required for a true "later").
@@ -809,4 +871,30 @@ func RunLigCondition(w *World, r *Report) {
 		r.OK("ligcondition", key, w.Pos(call.Pos()), "decided by IsFixedPitch (advance widths)")
 	}
 	r.Floor("ligcondition", 1)
+}
+
+// sliceThroughCells: the backward slice of v, continued through local
+// variable cells (a load of a captured variable depends on every value
+// stored into its cell in fn).
+func sliceThroughCells(fn *ssa.Function, v ssa.Value) map[ssa.Value]bool {
+	res := map[ssa.Value]bool{}
+	work := []ssa.Value{v}
+	for len(work) > 0 {
+		x := work[len(work)-1]
+		work = work[:len(work)-1]
+		for y := range backSlice(x) {
+			if res[y] {
+				continue
+			}
+			res[y] = true
+			if al, ok := y.(*ssa.Alloc); ok && al.Referrers() != nil {
+				for _, ref := range *al.Referrers() {
+					if st, ok := ref.(*ssa.Store); ok && st.Addr == ssa.Value(al) && !res[st.Val] {
+						work = append(work, st.Val)
+					}
+				}
+			}
+		}
+	}
+	return res
 }
